@@ -211,6 +211,9 @@ EXT_CONSTS = {'numpy.inf': INF, 'math.inf': INF, 'numpy.Inf': INF, 'numpy.infty'
 def _is_trivial(fn: FuncInfo) -> bool:
     """Getter / setter / one-line static helper."""
     body = [s for s in fn.node.body if not (isinstance(s, ast.Expr) and isinstance(s.value, ast.Constant))]
+    if (fn.is_setter or fn.is_property) and 1 <= len(body) <= 4 and \
+            all(isinstance(s, (ast.Assign, ast.AnnAssign, ast.Return, ast.Pass)) for s in body):
+        return True      # a property accessor made of plain assignments (e.g. one that also resets a cache)
     if len(body) != 1:
         return False
     s = body[0]
@@ -251,7 +254,7 @@ class Explorer:
                  may_raise: Optional[Callable[[Event], bool]] = None,
                  unroll: int = 2, max_depth: int = 5, max_paths: int = MAX_PATHS,
                  inline_ctor: bool = True, alias: str = 'distinct', inline_private: bool = True,
-                 opaque=()):
+                 opaque=(), cold_fields=None, on_cold_read=None, self_cls=None):
         self.ix, self.pta = ix, pta
         self._inline = inline
         self._may_raise = may_raise
@@ -262,6 +265,13 @@ class Explorer:
         self.alias = alias            # 'distinct': different symbolic bases denote different objects; 'may'
         self.inline_private = inline_private   # helpers extracted inside a class are looked through
         self.opaque = set(opaque)
+        # lazily cached derived attributes (mangled names): their entry state is "empty" (None) - the analysis
+        # follows the cold computation; coherence of the caches is a separate obligation (rules/caches.py)
+        # concrete class of the receiver the explored method runs on: calls on self dispatch through its MRO
+        # (template-method hooks overridden in a subclass)
+        self.self_cls = self_cls
+        self.cold_fields = set(cold_fields or ())
+        self.on_cold_read = on_cold_read
         self._writes_cache: Dict[str, Set[object]] = {}
         self._npaths = 0
         self.dropped = 0
@@ -912,6 +922,10 @@ class Explorer:
         hv = s.heap.get((bk, fld))
         if hv is not None:
             return hv
+        if fld in self.cold_fields and s.fver.get(fld, 0) == 0:
+            if self.on_cold_read is not None:
+                self.on_cold_read(fld)
+            return atomv(NONE)
         return atomv(('attr', bk, fld, s.fver.get(fld, 0)))
 
     def read_sub(self, s: State, b, i):
@@ -1167,6 +1181,19 @@ class Explorer:
         news = [c for c in callees if isinstance(c, tuple) and c[0] == 'new']
         exts = self.pta.ext_callees(f, e)
         name = self.callee_name(e)
+        if isinstance(e.func, ast.Name) and s.frames:
+            # a call through a local / parameter that is bound, on this path, to one known function (a function
+            # passed as an argument to an inlined helper)
+            fv = s.frames[-1][1].get(e.func.id)
+            fa = fv.single_atom() if isinstance(fv, RF) else None
+            if isinstance(fa, tuple) and len(fa) == 2 and fa[0] == 'func' and fa[1] in self.ix.funcs:
+                internal, news, exts = [self.ix.funcs[fa[1]]], [], set()
+        if len(internal) > 1 and self.self_cls is not None and isinstance(recv, RF) and s.frames:
+            root_fn = s.frames[0][0]
+            if root_fn.param_names and key_of(recv) == key_of(atomv(('var', root_fn.param_names[0]))):
+                m = self.self_cls.lookup(name)
+                if m is not None and m in internal:
+                    internal = [m]
         args, kwargs = self.normalise_args(internal, news, args, kwargs)
         # receiver that is a module/class is not a receiver
         if isinstance(recv, RF):
@@ -1295,6 +1322,8 @@ class Explorer:
             return atomv(('len', key_of(args[0]), s.fver.get('[]', 0)))
         if dotted == 'builtins.print':
             return atomv(NONE)
+        if dotted == 'builtins.bool' and n == 1 and key_of(args[0]) in (TRUE, FALSE):
+            return args[0]          # bool() of a decided condition
         if dotted in ALLOC_EXT:
             return None         # a fresh object each time: handled as an opaque call with an occurrence id
         if dotted.startswith(PURE_EXT_PREFIXES) and not dotted.startswith('numpy.random') or \
